@@ -193,5 +193,6 @@ def mutate_tokens(rng: random.Random, toks):
     if k == 7:
         toks.insert(i, rng.choice(['<', '>', '> >', '**']))
         return toks, 'bad-operator'
-    toks[i] = rng.choice(['ffh', 'B101', '0X1F', '1ah', '__x', '..y', 'BYTES', 'BYTE', '12ab', '$zz', 'x.y', 'LSB', '9zH'])
+    toks[i] = rng.choice(['ffh', 'B101', '0X1F', '1ah', '__x', '..y', 'BYTES', 'BYTE', '12ab', '$zz', 'x.y', 'LSB', '9zH',
+                          'BYTE10(7)', 'BYTE%d(70000)' % rng.randint(10, 99), 'LSB2(7)', 'byte0(7)'])
     return toks, 'bad-literal'
